@@ -2,6 +2,8 @@
 # run every claimed quick check on the current /repo tree (must be clean) and report
 cd /verif
 [ -z "$(git -C /repo status --short)" ] || { echo "/repo is dirty"; exit 3; }
+# the record of variable names (robustness against harmless renamings) is taken from the clean tree
+(export GOFLAGS=-mod=mod GOPROXY=off GOSUMDB=off GOTOOLCHAIN=local; cd /verif/govc/export && go run . -dir /repo -tags verif -o /var/tmp/all.json ./... ) && python3-vt /verif/tools/mknames.py /var/tmp/all.json
 for id in $(python3 -c "import json;print(' '.join(c['property_id'] for c in json.load(open('MANIFEST.json'))['checks']))"); do
   ./check $id quick | grep -E "VIOLATION|quick:|KNOWN"
 done
